@@ -313,6 +313,26 @@ class Assembler:
             self._for_body_stmt_starts = {}
         self._for_body_stmt_starts[id(fp)] = starts
         while k < end:
+            # 5c: a statement / block under `#[cfg(feature = "F")]` where F is listed in the unit's `cfg_off` (a cargo feature that is
+            # off in the default build, e.g. statistics counters) is dropped with its attribute -- it is not compiled into the
+            # node either; `#[cfg(not(feature = "F"))]` keeps its statement (the attribute alone is dropped)
+            if s.is_p(k, '#') and s.is_p(k + 1, '[') and s.is_id(k + 2, 'cfg') and s.is_p(k + 3, '(') and s.is_id(k + 4, 'feature') and s.is_p(k + 5, '='):
+                feat = s.s(k + 6).strip('"')
+                kc_attr = m[k + 1]
+                if feat in self.u.get('cfg_off', []) and s.is_p(k + 7, ')'):
+                    j = kc_attr + 1
+                    if s.is_p(j, '{'):
+                        j2 = m[j]
+                    else:
+                        j2 = j
+                        while j2 < end and not s.is_p(j2, ';'):
+                            if s.kind(j2) == 'p' and s.s(j2) in '([{':
+                                j2 = m[j2]
+                            j2 += 1
+                    ed.delete(s.t[k][1], s.t[j2][2])
+                    self.fired.add('5c:drop-cfg-feature-off:' + feat)
+                    k = j2 + 1
+                    continue
             # if let Some(metrics) = ckb_metrics::handle() { ... }
             if s.is_id(k, 'if') and s.is_id(k + 1, 'let') and s.is_id(k + 2, 'Some'):
                 j = k + 3
@@ -533,6 +553,15 @@ class Assembler:
         if s.is_p(kbody, '->'):
             while not s.is_p(kbody, '{'):
                 kbody += 1
+        if lf.get('self_as') or lf.get('deref'):
+            # as in loop-body lifting (23): `self` of the enclosing method becomes the named parameter, and a captured local that
+            # the closure ASSIGNS is passed as `&mut` and read / written through `(*name)`
+            kend = m[kbody] if s.is_p(kbody, '{') else fp.k_body_close
+            for q in range(kbody, kend):
+                if s.is_id(q, 'self') and lf.get('self_as'):
+                    ed.replace(s.t[q][1], s.t[q][2], lf['self_as'])
+                if s.is_id(q) and s.s(q) in lf.get('deref', []) and not s.is_p(q - 1, '.') and not (s.is_p(q + 1, ':') and not s.is_p(q + 1, '::')):
+                    ed.replace(s.t[q][1], s.t[q][2], '(*%s)' % s.s(q))
         if s.is_p(kbody, '{'):
             a, b = s.t[kbody][1], s.t[m[kbody]][2]
             body = ed.apply(s.text, a, b)
